@@ -83,7 +83,11 @@ def menu(basename):
 def reduced_menu(basename):
     """sub-menu for the k=2 product of the quick tier: one specimen per mechanism"""
     b0 = na.HOT[basename][0]
-    drop_struct = {"T3": [["set", "trafo", 0, "tap_pos", 9], ["set", "trafo", 0, "shift_degree", 30.], ["set", "trafo", 0, "vn_hv_kv", 115.],
+    drop_struct = {"R3": [["set", "line", 0, "parallel", 3], ["line", 0, 2, 2, True], ["set", "line", 0, "length_km", 0.4], ["bus", 1, False],
+                          ["switch", 1, 0, "l", True, 0.]],
+                   "T3": [["set", "trafo", 0, "tap_neutral", 1], ["set", "trafo", 0, "vkr_percent", 0.], ["line", 1, 2, 1, True],
+                          ["set", "trafo", 0, "tap_step_percent", 0.], ["set", "trafo", 0, "tap_pos", 9],
+                          ["set", "trafo", 0, "shift_degree", 30.], ["set", "trafo", 0, "vn_hv_kv", 115.],
                           ["trafo", 0, 1, {"in_service": False}], ["set", "line", 0, "parallel", 2], ["set", "trafo", 0, "i0_percent", 0.],
                           ["set", "switch", 0, "z_ohm", 0.5]]}.get(basename, [])
     out = []
